@@ -3,10 +3,13 @@
 package c08
 
 import (
+	"context"
 	"errors"
 	"fmt"
+	"github.com/form3tech-oss/f1/v2/internal/verifh/runkit"
 	"sync/atomic"
 	"testing"
+	"time"
 
 	"github.com/form3tech-oss/f1/v2/internal/metrics"
 	"github.com/form3tech-oss/f1/v2/internal/options"
@@ -195,6 +198,47 @@ func TestC08(t *testing.T) {
 	for i := 0; i < n; i++ {
 		c := gen(r, true)
 		emit(c, "recorded", evalRecorded(c))
+	}
+
+	// whole runs (Run.Do) that are interrupted while their setup is still executing: the verdict
+	// still says whether setup failed
+	for i := 0; i < kit.N(12, 60); i++ {
+		how := i % 4 // 0: setup passes; 1: Fail; 2: FailNow; 3: panic
+		ctx, cancel := context.WithCancel(context.Background())
+		scenario := func(st *f1testing.T) f1testing.RunFn {
+			cancel() // the interrupt arrives during setup
+			switch how {
+			case 1:
+				st.Fail()
+			case 2:
+				st.FailNow()
+			case 3:
+				panic("setup panicked")
+			}
+			return func(*f1testing.T) {}
+		}
+		ign := r.Bool()
+		mode := kit.Pick(r, "users", "constant")
+		flags := map[string]string{}
+		if mode == "constant" {
+			flags = map[string]string{"rate": "1/100ms", "distribution": "none"}
+		}
+		cfg := runkit.Config{Mode: mode, Flags: flags, Scenario: scenario, Ctx: ctx,
+			Opts: options.RunOptions{MaxDuration: time.Second, Concurrency: 2, IgnoreDropped: ign}}
+		out, hung, _ := runkit.DoTimeout(cfg, 30*time.Second)
+		cancel()
+		if hung || out.Result == nil {
+			o.Fail("verdict-run", fmt.Sprintf("a run interrupted during setup did not return a result (hung=%v, err=%v)", hung, out.Err))
+			continue
+		}
+		sn := out.Result.Snapshot()
+		nerrs := 0
+		if how > 0 {
+			nerrs = 1
+		}
+		c := vcase{nerrs, sn.SuccessfulIterationDurations.Count, sn.FailedIterationDurations.Count, sn.DroppedIterationCount, ign, 0, 0}
+		o.Count("clause", "interrupted during setup")
+		o.Case("verdict", c.args(), kit.Res(false, nil, kit.B(out.Result.Failed())), "run", "interrupted-setup", "nt")
 	}
 
 	// end to end through the CLI: exit status of real runs
